@@ -132,4 +132,12 @@ theorem gen_divide_and_round_q_last_inplace_rounds (r : RNSTool) (p : RnsPoly) (
 theorem gen_mod_t_and_divide_q_last_ntt_inplace_eq : type_of% @HC.gr_mod_t_and_divide_q_last_ntt_inplace_eq :=
   @HC.gr_mod_t_and_divide_q_last_ntt_inplace_eq
 
+/-- coefficient-form BGV division generated from the source = `RNSTool.modTAndDivideQLast` (the `+=` of the inner loop traps on both sides alike) -/
+theorem gen_mod_t_and_divide_q_last_inplace_eq : type_of% @HC.gr_mod_t_and_divide_q_last_inplace_eq := @HC.gr_mod_t_and_divide_q_last_inplace_eq
+/-- END TO END (BGV, coefficient form): the generated function returns y mod q_i with y = (X − [X]_{q_L})/q_L − [−X q_L⁻¹]_t and y·q_L ≡ X (mod t) -/
+theorem gen_mod_t_and_divide_q_last_inplace_bgv : type_of% @HC.gr_mod_t_and_divide_q_last_inplace_bgv := @HC.gr_mod_t_and_divide_q_last_inplace_bgv
+/-- `divide_and_round_q_last_ntt_inplace` generated from the source = `RNSTool.divideAndRoundQLastNtt` (abstract inverse / lazy forward NTT of table i
+    instantiated with the model's `intt` / `nttLazy`; only `2^k = n` is used about the tables; no range assumption on the coefficients) -/
+theorem gen_divide_and_round_q_last_ntt_inplace_eq : type_of% @HC.gr_divide_and_round_q_last_ntt_inplace_eq := @HC.gr_divide_and_round_q_last_ntt_inplace_eq
+
 end HC.C10
